@@ -24,6 +24,7 @@ const (
 	WErrEOF              // (0, io.EOF) at call k only: an error value that reading code often treats as "done"
 	WErrTemporary        // (0, err with Temporary() == true) at call k only
 	WErrWrapper          // (0, a wrapper error whose Unwrap() returns nil) at call k only
+	WFullCountErr        // (len(p), err) at call k only: every byte taken, yet an error is reported
 	nWFault
 )
 
@@ -42,7 +43,7 @@ func (tempErr) Temporary() bool { return true }
 func (tempErr) Timeout() bool   { return true }
 
 func (k WFault) String() string {
-	return [...]string{"none", "err-once", "err-sticky", "short+ErrShortWrite", "short+nil", "short-by-one+nil", "err-once(io.EOF)", "err-once(temporary)", "err-once(wrapper without cause)"}[k]
+	return [...]string{"none", "err-once", "err-sticky", "short+ErrShortWrite", "short+nil", "short-by-one+nil", "err-once(io.EOF)", "err-once(temporary)", "err-once(wrapper without cause)", "full count + error"}[k]
 }
 
 var errInjected = errors.New("injected writer failure")
@@ -84,6 +85,11 @@ func (w *FaultyWriter) Write(p []byte) (int, error) {
 			w.Fired++
 			w.FiredAt = append(w.FiredAt, w.Calls)
 			return 0, &wrapErr{}
+		case WFullCountErr:
+			w.Sink.Write(p)
+			w.Fired++
+			w.FiredAt = append(w.FiredAt, w.Calls)
+			return len(p), errInjected
 		case WShortErr, WShortNil, WShortOneNil:
 			if len(p) == 0 {
 				break // a zero-length write cannot be short; nothing fires
